@@ -160,6 +160,7 @@ type search struct {
 	mu      sync.Mutex
 	found   map[string]Found
 	samples [][]string
+	covered map[string]bool
 }
 
 func (s *search) report(vs []Violation, trace []string) {
@@ -180,12 +181,27 @@ func (s *search) report(vs []Violation, trace []string) {
 	}
 }
 
+// sample keeps the first six maximal traces plus every later one that contains an event no kept
+// sample contains yet (so that the samples — which are also the traces replayed on a second worker
+// and through the full ABCI stack — cover the alphabet), up to 48.
 func (s *search) sample(trace []string) {
 	s.mu.Lock()
-	if len(s.samples) < 6 {
-		s.samples = append(s.samples, append([]string{}, trace...))
+	defer s.mu.Unlock()
+	if s.covered == nil {
+		s.covered = map[string]bool{}
 	}
-	s.mu.Unlock()
+	fresh := false
+	for _, ev := range trace {
+		if !s.covered[ev] {
+			fresh = true
+		}
+	}
+	if len(s.samples) < 6 || (fresh && len(s.samples) < 48) {
+		s.samples = append(s.samples, append([]string{}, trace...))
+		for _, ev := range trace {
+			s.covered[ev] = true
+		}
+	}
 }
 
 func (s *search) halted() bool {
@@ -297,6 +313,7 @@ func Run(sc Scenario, cfg Config) (*Result, error) {
 		s.maximal.Store(0)
 		s.mu.Lock()
 		s.samples = nil
+		s.covered = nil
 		s.mu.Unlock()
 		// enumerate job prefixes of length min(SplitLevel, d) on worker 0
 		type job struct{ trace []string }
